@@ -296,15 +296,33 @@ private def rcbcCt := hex <|
 
 end Tests
 
-/-! ## S-box inversion (kernel-checked by exhaustive evaluation; ~10 s of build time) -/
+/-! ## S-box inversion
 
-private theorem sbox_inv_fin :
-    ∀ n : Fin 256, invSbox[(sbox[n.val]!).toNat]! = UInt8.ofNat n.val := by
+Checked by the kernel by exhaustive evaluation (`decide +kernel`; no `native_decide`).
+One linear pass over `sbox` with 256 list lookups into `invSbox` (a few seconds). -/
+
+private theorem sbox_inv_list :
+    sbox.toList.map (fun v => invSbox.toList.getD v.toNat 0)
+      = (List.range 256).map UInt8.ofNat := by
   decide +kernel
+
+private theorem getElem!_eq_toList_getD (a : Array UInt8) (i : Nat) :
+    a[i]! = a.toList.getD i 0 := by
+  simp [List.getD, getElem!_def]
+  rfl
 
 /-- `invSbox` is a left inverse of `sbox`. -/
 theorem sbox_inv : ∀ b : UInt8, invSbox[(sbox[b.toNat]!).toNat]! = b := by
   intro b
-  simpa using sbox_inv_fin ⟨b.toNat, UInt8.toNat_lt b⟩
+  have hb : b.toNat < 256 := UInt8.toNat_lt b
+  have h := congrArg (fun l => l[b.toNat]?) sbox_inv_list
+  simp only [List.getElem?_map, List.getElem?_range hb, Option.map_some] at h
+  rw [getElem!_eq_toList_getD, getElem!_eq_toList_getD]
+  cases hs : sbox.toList[b.toNat]? with
+  | none => simp [hs] at h
+  | some v =>
+    simp only [hs, Option.map_some, Option.some.injEq] at h
+    simp only [List.getD, hs, Option.getD_some]
+    simpa [List.getD] using h
 
 end Cinco.Aes
